@@ -387,6 +387,7 @@ class Norm:
         self.env = dict(env or {})
         self.cell = cell or (lambda n: None)
         self.reduce_hook = None
+        self.depth = 0
 
     def lit(self, n):
         v = n["v"].replace("_", "")
@@ -482,11 +483,38 @@ class Norm:
             r = self.norm(b["tail"])
             self.env = saved
             return r
+        if k == "match":
+            return self.match_option(n)
         if k == "path":
             return Rat.atom(n["def"])
         if k == "tup":
             return fn_atom("tup", *[self.norm(x) for x in n["xs"]])
         raise ValueError("E1 cannot normalise %s: %s" % (k, short(pretty(n), 80)))
+
+    def match_option(self, n):
+        """`match <place> { Some(x) => A, None => B }` as ite(is_some(place), A[x := place.Some], B)"""
+        arms = n["arms"]
+        if len(arms) != 2:
+            raise ValueError("E1: match in scalar expression")
+        some = none = None
+        for a in arms:
+            p_ = a["pat"]
+            while p_.get("k") in ("ref", "deref"):
+                p_ = p_["p"]
+            if p_.get("k") == "tstruct" and p_["path"].endswith("::Some") and len(p_["ps"]) == 1:
+                some = (a, p_["ps"][0])
+            elif (p_.get("k") == "ppath" and p_["path"].endswith("::None")) or p_.get("k") == "wild":
+                none = a
+        if some is None or none is None:
+            raise ValueError("E1: match in scalar expression")
+        src = self.place_name(n["scrut"])
+        saved = dict(self.env)
+        for nm, hid in pat_binds(some[1]):
+            self.env[hid] = Rat.atom("%s.Some" % src)
+        t = self.norm(some[0]["body"])
+        self.env = saved
+        e = self.norm(none["body"])
+        return ite("is_some(%s)" % src, t, e)
 
     def math(self, name, x, args, n):
         if name in ("powi", "powf", "pow"):
@@ -526,6 +554,10 @@ class Norm:
             r = self.reduce_hook(self, n)
             if r is not None:
                 return r
+        if n["callee"] in self.c.fns:
+            r = self.inline_local(n["callee"], [n["recv"]] + list(n["args"]))
+            if r is not None:
+                return r
         base = n["callee"].rsplit("::", 1)[0]
         x = self.norm(n["recv"])
         args = [self.norm(a) for a in n["args"]]
@@ -535,8 +567,41 @@ class Norm:
             return fn_atom(n["callee"], x, *args)
         return self.math(name, x, args, n)
 
+    def inline_local(self, callee, arg_nodes):
+        """Inline a crate-local helper whose body is a pure scalar expression of its parameters."""
+        callee = callee[5:] if callee.startswith("Self:") else callee
+        fn = self.c.fns.get(callee)
+        if fn is None or self.depth > 4:
+            return None
+        ret = fn.get("output", "")
+        if ret not in ("f32", "usize", "bool", "f64", "i32"):
+            return None
+        params = fn["params"]
+        if len(params) != len(arg_nodes):
+            return None
+        env = {}
+        for p_, a_ in zip(params, arg_nodes):
+            while p_.get("k") in ("ref", "deref"):
+                p_ = p_["p"]
+            if p_.get("k") != "bind":
+                return None
+            if p_["name"] == "self":
+                env[p_["hid"]] = Rat.atom("self")
+                continue
+            env[p_["hid"]] = self.norm(a_)
+        sub = Norm(self.c, env, None)
+        sub.reduce_hook = self.reduce_hook
+        sub.depth = self.depth + 1
+        try:
+            return sub.norm(fn["body"])
+        except ValueError:
+            return None
+
     def call(self, n):
         callee = n["callee"]
+        r = self.inline_local(callee, n["args"])
+        if r is not None:
+            return r
         args = [self.norm(a) for a in n["args"]]
         name = callee.rsplit("::", 1)[-1]
         base = callee.rsplit("::", 1)[0] if "::" in callee else ""
@@ -575,6 +640,10 @@ class Sym:
             return None
         return Norm(self.c, env, cell)
 
+    def _has_effects(self, n):
+        from .hir import walk
+        return any(x.get("k") in ("assign", "assignop") for x in walk(n))
+
     def _mentions_cell(self, n, store):
         from .hir import walk
         for x in walk(n):
@@ -597,9 +666,22 @@ class Sym:
         k = s.get("k")
         out = []
         if k == "let":
+            if s["pat"].get("k") != "bind" or s["init"] is None:
+                raise ValueError("E1: unsupported let pattern in scalar program: " + short(pretty(s), 60))
+            init = strip(s["init"])
+            if init.get("k") in ("if", "match") and self._has_effects(init):
+                # value-producing conditional with side effects: execute it as a statement, the value is `<value>`
+                res = self._exec_stmt(init, [(g, dict(st), env) for (g, st, env) in states])
+                for (g, st, env) in res:
+                    st = dict(st)
+                    v = st.pop("<value>", None)
+                    if v is None:
+                        raise ValueError("E1: conditional initialiser without a value")
+                    env = dict(env)
+                    env[s["pat"]["hid"]] = v
+                    out.append((g, st, env))
+                return out
             for (g, st, env) in states:
-                if s["pat"].get("k") != "bind" or s["init"] is None:
-                    raise ValueError("E1: unsupported let pattern in scalar program: " + short(pretty(s), 60))
                 env = dict(env)
                 env[s["pat"]["hid"]] = self._norm(st, env).norm(s["init"])
                 out.append((g, st, env))
@@ -667,7 +749,35 @@ class Sym:
         if k == "blk":
             return self._exec_block(s, states)
         if k == "match":
-            raise ValueError("E1: match in scalar program")
+            # `match <param option> { Some(x) => .., None => .. }` as a parameter guard
+            arms_ = s["arms"]
+            some = none = None
+            for a in arms_:
+                p_ = a["pat"]
+                while p_.get("k") in ("ref", "deref"):
+                    p_ = p_["p"]
+                if p_.get("k") == "tstruct" and p_["path"].endswith("::Some") and len(p_["ps"]) == 1:
+                    some = (a, p_["ps"][0])
+                elif (p_.get("k") == "ppath" and p_["path"].endswith("::None")) or p_.get("k") == "wild":
+                    none = a
+            if len(arms_) != 2 or some is None or none is None:
+                raise ValueError("E1: match in scalar program")
+            for (g, st, env) in states:
+                src = Norm(self.c, env).place_name(s["scrut"])
+                env_t = dict(env)
+                for nm, hid in pat_binds(some[1]):
+                    env_t[hid] = Rat.atom("%s.Some" % src)
+                gname = "is_some(%s)" % src
+                out += self._exec_block(some[0]["body"], [(g + ((gname, True),), st, env_t)])
+                out += self._exec_block(none["body"], [(g + ((gname, False),), st, env)])
+            return out
+        if k == "mcall" and s["name"] == "push" and len(s["args"]) == 1 and self.cellname(strip(s["recv"])) is None:
+            # building the result with push() in a loop: the pushed expression is the element's value
+            for (g, st, env) in states:
+                st = dict(st)
+                st["<value>"] = self._norm(st, env).norm(s["args"][0])
+                out.append((g, st, env))
+            return out
         # expression statement without effect on cells (value of the block): record as result
         for (g, st, env) in states:
             st = dict(st)
